@@ -118,6 +118,25 @@ static ref::props_t jprops(const json::object& o, const char* k = "props") {
     return out;
 }
 
+// ------------------------------------------------------------ scripted authenticator (enhanced authentication)
+static bool g_auth_never_fail = false;   // set by the cooperative suffix (quiesce): the authenticator stops failing
+struct sim_authenticator {
+    std::string meth; int fail_step = -1;   // 0 client_initial, 1 server_challenge, 2 server_final; -1 never fails
+    asio::any_io_executor ex;
+    template <typename CompletionToken>
+    decltype(auto) async_auth(mq::auth_step_e step, std::string data, CompletionToken&& token) {
+        using Signature = void (error_code, std::string);
+        auto initiate = [this](auto handler, mq::auth_step_e step, std::string data) {
+            error_code ec;
+            if ((int) step == fail_step && !g_auth_never_fail) ec = asio::error::no_recovery;
+            jev("auth_step").i("step", (int) step).i("fail", ec ? 1 : 0).i("nb", (long long) data.size());
+            asio::post(ex, asio::prepend(std::move(handler), ec, std::string("a") + std::to_string((int) step)));
+        };
+        return asio::async_initiate<CompletionToken, Signature>(initiate, token, step, std::move(data));
+    }
+    std::string_view method() const { return meth; }
+};
+
 // ------------------------------------------------------------ the application
 struct op_rec {
     int id = 0; std::string kind;
@@ -205,6 +224,16 @@ struct app {
         if (s.contains("cprops")) {
             mq::connect_props cp; auto rp = jprops(s, "cprops"); from_ref(cp, rp);
             c->connect_properties(cp); expect.props = rp;
+        }
+        if (s.contains("auth")) {
+            auto& ao = s.at("auth").as_object();
+            sim_authenticator a {}; a.meth = jstrk(ao, "method", "m"); a.fail_step = (int) jint(ao, "fail", -1); a.ex = ioc.get_executor();
+            std::string meth = a.meth;
+            c->authenticator(std::move(a));
+            // the CONNECT then carries Authentication Method and the data of the client_initial step
+            expect.props.push_back(ref::prop { 0x15, 0, meth, {} });
+            expect.props.push_back(ref::prop { 0x16, 0, "a0", {} });
+            br.auth_rounds = (int) jint(ao, "rounds", 0);
         }
         sim::g_time_seed = (long) jint(s, "tseed", 12345);
         auto& w = W();
@@ -552,6 +581,7 @@ struct app {
         else if (op == "advance") { advance(jint(s, "ms", 1000), false); return; }
         else if (op == "quiesce") {
             if (jint(s, "release", 1)) { // fault-free, cooperative suffix
+                g_auth_never_fail = true;
                 w.auto_resolve = w.auto_connect = w.auto_write = w.auto_deliver = w.auto_shutdown = true; w.chunk = 0;
                 for (auto& d : w.host_disp) d = sim::disp::accept;
                 for (auto& r : w.host_resolve) r = 1;
@@ -621,6 +651,7 @@ int main(int argc, char** argv) {
         try { v = json::parse(sv); } catch (const std::exception& e) { fprintf(stderr, "simrun: bad script line %ld: %s\n", my, e.what()); return 2; }
         auto& o = v.as_object();
         W().reset_scenario();
+        g_auth_never_fail = false;
         vt::g_now_ns = 0;
         {
             app a;
